@@ -103,8 +103,18 @@ def cases(tier, seed, facet):
              "nw": 2, "cs": rng.choice((1, 6, -1)), "optimize": rng.random() < 0.5}
         if facet == "C04":
             d["nfail"] = rng.randint(1, 2)
-            d["exc"] = rng.choice(("ValueError", "KeyError", "Boom", "UnpicklableBoom"))
+            d["exc"] = rng.choice(("ValueError", "KeyError", "Boom", "UnpicklableBoom", "Boom2"))
         yield d
+    if facet == "C04":
+        # several failing process-scheduler calls from ONE parent process, raising different exception
+        # classes (two of them share their __name__): state kept between calls must not mix them up
+        for j in range(8 if tier == "quick" else 120):
+            excs = rng.sample(("Boom", "Boom2", "ValueError", "KeyError"), 3)
+            if rng.random() < 0.7:
+                excs = rng.choice((["Boom", "Boom2", "Boom"], ["Boom2", "Boom", "KeyError"], ["Boom", "ValueError", "Boom2"]))
+            yield {"k": "pool", "mode": "processes-seq", "n": rng.randint(3, 7), "pseed": rng.randrange(2 ** 31),
+                   "form": rng.choice(("legacy", "spec")), "style": "str", "nw": 2, "cs": rng.choice((1, 6)),
+                   "optimize": rng.random() < 0.5, "nfail": 1, "excs": list(excs)}
 
 
 # ---------------------------------------------------------------------------
@@ -299,6 +309,12 @@ def _run_pool(case, ctx, facet, prog, failing, outer):
 
     from ..mon.yieldinj import inject
 
+    if case["mode"] == "processes-seq":
+        ctx.count("process_call_sequences")
+        for j, exc in enumerate(case["excs"]):
+            sub = dict(case, mode="processes", exc=exc, pseed=case["pseed"] + 17 * j)
+            _run_pool(sub, ctx, facet, _program(sub), failing, outer)
+        return
     rng = random.Random(case["pseed"] + 3)
     keys = [n.key for n in prog.nodes]
     req = G.random_request(rng, keys)
